@@ -12,7 +12,7 @@ from .common import call
 
 PROP = "C16"
 LEVEL = "fault_enumeration"
-CASES = {"quick": 240, "thorough": 12000}
+CASES = {"quick": 240, "thorough": 50000}
 SHARDS = {"quick": 8, "thorough": 16}
 ANCHORS = [
     "api.py:Converter.pd_compress", "api.py:Converter.pd_expand", "api.py:Converter.pd_standardize_prefix",
